@@ -107,6 +107,9 @@ pub struct Mon {
     pub record_mem: bool,
     /// (journal depth, step index) of call instructions whose frame has not resumed yet
     pub pending_calls: Vec<(u64, usize)>,
+    /// record (journal depth, EOF code section, pc) of every EOF instruction executed
+    pub trace_eof_pcs: bool,
+    pub eof_pcs: Vec<(u64, usize, usize)>,
 }
 impl Mon {
     pub fn new(record_steps: bool) -> Self {
@@ -193,6 +196,13 @@ pub fn monitor_register<EXT: HasMon, DB: Database>(h: &mut EvmHandler<'_, EXT, D
         // `step` has already advanced the pointer past the opcode byte
         let pc = interp.program_counter().wrapping_sub(1);
         let op = interp.bytecode.get(pc).copied().unwrap_or(0);
+        if interp.is_eof && host.external.mon().trace_eof_pcs {
+            let sec = interp.function_stack.current_code_idx;
+            let m = host.external.mon();
+            if m.eof_pcs.len() < 100_000 {
+                m.eof_pcs.push((depth, sec, pc));
+            }
+        }
         let rec = {
             let m = host.external.mon();
             m.step_count += 1;
